@@ -72,6 +72,8 @@ def escape_slot_name(name):
 
 
 class Interp:
+    MAX_STEPS = 150_000
+
     def __init__(self, program, mode, switches=()):
         self.p = program
         self.mode = mode
@@ -92,6 +94,7 @@ class Interp:
         self.provider_count = 0
         self.collect_errors = False
         self.errors = []
+        self.steps = 0
         self.events = {"slot_filled": 0, "slot_default": 0, "slot_in_default": 0, "slot_in_fill": 0, "fill_in_loop": 0, "dynamic_name": 0, "inject_hit": 0, "inject_default": 0, "max_depth": 0}
 
     # ------------------------------------------------------------------ entry
@@ -136,6 +139,11 @@ class Interp:
         out = []
         for n in nodes:
             k = n[0]
+            self.steps += 1
+            if self.steps > self.MAX_STEPS:
+                # programs whose evaluation explodes (nested alias expansions x loops) are skipped, not judged: both the
+                # model and the real render would need memory proportional to an exponentially long output
+                raise Unspecified("program too large to judge (model step budget)")
             if k == "text" or k == "fp":
                 out.append(f"[{n[1]}]")
             elif k == "elem":
